@@ -94,7 +94,7 @@ EXPRESSIBLE = {
         "vertices": True, "isolated_vertices": True, "shared_vertices": True,
         "edges": False,
         "faces": [],
-        "cells": [4],
+        "cells": [4, 8],
         "attributes": False,
         "coordinates": "decimal text (float64 exact with repr)",
         "element_order": "preserved",
@@ -714,17 +714,19 @@ def _write_tet(mesh, opts):
         _refuse(lossy, "tet", "edges")
     if F:
         _refuse(lossy, "tet", "faces")
-    if any(len(c) != 4 for c in C):
-        _refuse(lossy, "tet", "cells that are not tetrahedra")
+    # (.tet has no written standard: it is defined by its users.  Records are '<k> i1 .. ik'; like GEOGRAM's tet handler and
+    #  like mouette, the reference accepts k = 4 (tetrahedron) and k = 8 (hexahedron) under the same '<m> tets' header.)
+    if any(len(c) not in (4, 8) for c in C):
+        _refuse(lossy, "tet", "cells that are neither tetrahedra nor hexahedra")
     if any(A.get(s) for s in A):
         _refuse(lossy, "tet", "attributes")
-    tets = [c for c in C if len(c) == 4]
+    tets = [c for c in C if len(c) in (4, 8)]
     T.add("%d vertices" % len(V))
     T.add("%d tets" % len(tets))
     for p in V:
         T.add(" ".join(T.ff(c) for c in p))
     for c in tets:
-        T.add("4 " + " ".join(str(i) for i in c))
+        T.add("%d " % len(c) + " ".join(str(i) for i in c))
     return T.finish()
 
 
@@ -753,10 +755,10 @@ def _read_tet(text):
     for ln, t in body[nv:]:
         where = "tet line %d" % ln
         k = _to_int(t[0], where)
-        if k != 4:
-            raise FormatError("%s: a cell record is '4 a b c d' (got leading %d)" % (where, k))
-        if len(t) != 5:
-            raise FormatError("%s: a cell record is '4 a b c d'" % where)
+        if k not in (4, 8):
+            raise FormatError("%s: a cell record is '4 a b c d' or '8 a .. h' (got leading %d)" % (where, k))
+        if len(t) != k + 1:
+            raise FormatError("%s: a cell record announces %d indices" % (where, k))
         out["cells"].append([_to_int(x, where) for x in t[1:]])
     _check_indices(out, "tet")
     return out
